@@ -120,7 +120,7 @@ impl Property for C08 {
         "C08"
     }
     fn rule(&self) -> String {
-        "cases: call histories as for C05 (builder with arbitrary method calls or decoded boundary record, then 0..12 calls over all 22 mutators with arbitrary keys and values, own or other key of the same scheme; all eleven key families), plus all sequences of length <= 2 over the operation alphabet (61 to 65 concrete calls depending on the family, incl. the identity operations clone / re-decode / re-parse / serde / clone_from). Oracle (model-based, per step, from the observed pre-state): a sorted-map model predicts the pairs after the call (builder pairs + id=v4 + signer key; insert/typed setter replaces exactly one key with the canonical encoding; removals delete exactly the named keys; socket setters write only that family's ip and port key; signer's key always stored; everything else untouched), the return value (previous raw value / decoded previous address or port / removed+overwritten values) and the set of admissible error kinds (size, sequence overflow, ill-typed or malformed value, unsupported id; any of them when several apply). Where the properties are silent (other scheme's key name, malformed inner bytes of list values, CombinedKey precedence) either outcome is admitted. Non-trivial: a step that changes or removes an existing key, passes a reserved key through a generic entry point, or fails. Distinct by hash of the history.".into()
+        "cases: call histories as for C05 (builder with arbitrary method calls or decoded boundary record, then 0..12 calls over all 22 mutators with arbitrary keys and values, own or other key of the same scheme; all twelve key families), plus all sequences of length <= 2 over the operation alphabet (61 to 65 concrete calls depending on the family, incl. the identity operations clone / re-decode / re-parse / serde / clone_from). Oracle (model-based, per step, from the observed pre-state): a sorted-map model predicts the pairs after the call (builder pairs + id=v4 + signer key; insert/typed setter replaces exactly one key with the canonical encoding; removals delete exactly the named keys; socket setters write only that family's ip and port key; signer's key always stored; everything else untouched), the return value (previous raw value / decoded previous address or port / removed+overwritten values) and the set of admissible error kinds (size, sequence overflow, ill-typed or malformed value, unsupported id; any of them when several apply). Where the properties are silent (other scheme's key name, malformed inner bytes of list values, CombinedKey precedence) either outcome is admitted. Non-trivial: a step that changes or removes an existing key, passes a reserved key through a generic entry point, or fails. Distinct by hash of the history.".into()
     }
     fn assumptions(&self) -> Vec<String> {
         vec!["the map model is written from the statements of C08/C09/C07, not from the code".into()]
